@@ -45,6 +45,12 @@ type Program struct {
 	DisableInline bool
 	// ResolvedSpecs records every function spec a rule resolved (for -dump-anchors);
 	// Relocated records anchors that were found under a new name (see relocate).
+	ResolvedFields map[string]*types.Var // unexported field anchors resolved so far
+	// oldName gives a relocated anchor (function or field) the name the rules know it by: the
+	// canonical expressions keep the pinned tree's vocabulary after a rename.
+	oldName       map[types.Object]string
+	relocatedAll  bool
+	relocating    map[string]bool
 	ResolvedSpecs map[string]*types.Func
 	Relocated     map[string]string
 }
@@ -57,10 +63,25 @@ type FrozenAnchor struct {
 	Callers []string            // FuncName form
 	Callees map[string][]string // caller → names of the unexported same-package functions it called
 	NParams int                 // parameters including the receiver
+	Own     []string            // unexported same-package functions the anchor itself called
 }
 
 // FrozenAnchors is filled by package props (generated table).
 var FrozenAnchors = map[string]FrozenAnchor{}
+
+// FrozenField is what the pinned tree said about an unexported struct field that a rule names
+// as an anchor: its type and the unexported fields its struct had.  If the field vanished under
+// its name, the unique NEW field of the same struct with the same type is taken for it.
+type FrozenField struct {
+	Type string // types.TypeString relative to the struct's package
+}
+
+// FrozenFields and FrozenStructs (struct spec → names of all its fields on the pinned tree) are
+// filled by package props (generated table).
+var (
+	FrozenFields  = map[string]FrozenField{}
+	FrozenStructs = map[string][]string{}
+)
 
 // ResetFns drops every cached analysis view (after the anchor-collection pass).
 func (p *Program) ResetFns() {
@@ -236,6 +257,19 @@ func (p *Program) Obj(spec string) types.Object {
 			}
 		}
 	}
+	if obj == nil {
+		if ff, ok := FrozenFields[spec]; ok {
+			if v := p.relocateField(spec, ff); v != nil {
+				obj = v
+			}
+		}
+	}
+	if v, ok := obj.(*types.Var); ok && v.IsField() && !v.Exported() {
+		if p.ResolvedFields == nil {
+			p.ResolvedFields = map[string]*types.Var{}
+		}
+		p.ResolvedFields[spec] = v
+	}
 	if fn, ok := obj.(*types.Func); ok {
 		if p.NoInline == nil {
 			p.NoInline = map[*types.Func]bool{}
@@ -247,6 +281,95 @@ func (p *Program) Obj(spec string) types.Object {
 		p.ResolvedSpecs[spec] = fn
 	}
 	return obj
+}
+
+// RelocateAll resolves every frozen anchor once, so that the canonical names of renamed anchors
+// are known before the first rule renders an expression.
+func (p *Program) RelocateAll() {
+	if p.relocatedAll {
+		return
+	}
+	p.relocatedAll = true
+	p.oldName = map[types.Object]string{}
+	last := func(spec string) string { return spec[strings.LastIndex(spec, ".")+1:] }
+	lastFn := func(spec string) string {
+		n := spec[strings.LastIndex(spec, ":")+1:]
+		return n[strings.LastIndex(n, ".")+1:]
+	}
+	for spec, fa := range FrozenAnchors {
+		if p.objRaw(spec) == nil {
+			if fn := p.relocate(spec, fa); fn != nil {
+				p.oldName[fn] = lastFn(spec)
+			}
+		}
+	}
+	for spec, ff := range FrozenFields {
+		if p.objRaw(spec) == nil {
+			if v := p.relocateField(spec, ff); v != nil {
+				p.oldName[v] = last(spec)
+			}
+		}
+	}
+}
+
+// nameOf is the name canonical expressions use for an object.
+func (p *Program) nameOf(o types.Object) string {
+	if !p.relocatedAll {
+		p.RelocateAll()
+	}
+	if n, ok := p.oldName[o]; ok {
+		return n
+	}
+	if f, ok := o.(*types.Func); ok {
+		if n, ok := p.oldName[f.Origin()]; ok {
+			return n
+		}
+	}
+	return o.Name()
+}
+
+// relocateField finds the field that took the place of a vanished unexported field anchor
+// `pkg:Type.field`: the only field of Type that the pinned tree did not have and whose type is
+// the vanished field's type.
+func (p *Program) relocateField(spec string, ff FrozenField) *types.Var {
+	i := strings.LastIndex(spec, ".")
+	if i < 0 {
+		return nil
+	}
+	owner := p.objRaw(spec[:i])
+	if owner == nil {
+		return nil
+	}
+	T := owner.Type()
+	if ptr, ok := T.Underlying().(*types.Pointer); ok {
+		T = ptr.Elem()
+	}
+	st, ok := T.Underlying().(*types.Struct)
+	if !ok {
+		return nil
+	}
+	old := map[string]bool{}
+	for _, n := range FrozenStructs[spec[:i]] {
+		old[n] = true
+	}
+	var found []*types.Var
+	for k := 0; k < st.NumFields(); k++ {
+		f := st.Field(k)
+		if old[f.Name()] || f.Exported() {
+			continue
+		}
+		if types.TypeString(f.Type(), types.RelativeTo(owner.Pkg())) == ff.Type {
+			found = append(found, f)
+		}
+	}
+	if len(found) != 1 {
+		return nil
+	}
+	if p.Relocated == nil {
+		p.Relocated = map[string]string{}
+	}
+	p.Relocated[spec] = spec[:i+1] + found[0].Name()
+	return found[0]
 }
 
 // relocate finds the function that took the place of a vanished unexported anchor.
@@ -263,6 +386,20 @@ func (p *Program) relocate(spec string, fa FrozenAnchor) *types.Func {
 	surviving := 0
 	for _, cn := range fa.Callers {
 		caller := byName[cn]
+		if caller == nil {
+			// the caller itself may have been renamed in the same change
+			cspec := strings.NewReplacer("(", "", ")", "", "*", "").Replace(cn)
+			if cfa, ok := FrozenAnchors[cspec]; ok && cspec != spec && !p.relocating[cspec] {
+				if p.relocating == nil {
+					p.relocating = map[string]bool{}
+				}
+				p.relocating[spec] = true
+				if cf := p.relocate(cspec, cfa); cf != nil {
+					caller = p.Src(cf)
+				}
+				delete(p.relocating, spec)
+			}
+		}
 		if caller == nil || caller.Decl.Body == nil {
 			continue
 		}
@@ -294,9 +431,13 @@ func (p *Program) relocate(spec string, fa FrozenAnchor) *types.Func {
 	if surviving == 0 {
 		return nil
 	}
+	own := map[string]bool{}
+	for _, n := range fa.Own {
+		own[n] = true
+	}
 	var found []*types.Func
 	for fn, k := range cand {
-		if k != surviving {
+		if k != surviving || own[fn.Name()] {
 			continue
 		}
 		sig := fn.Type().(*types.Signature)
@@ -308,6 +449,22 @@ func (p *Program) relocate(spec string, fa FrozenAnchor) *types.Func {
 			found = append(found, fn)
 		}
 	}
+	newOther, newOwn, inlined := 0, 0, false
+	for fn := range cand {
+		if own[fn.Name()] {
+			newOwn++
+		} else {
+			newOther++
+		}
+	}
+	if len(found) == 0 && surviving == 1 && len(fa.Callers) == 1 && newOther == 0 && (newOwn > 0 || len(fa.Own) == 0) {
+		// the only caller calls nothing new except what the vanished helper itself called: the
+		// single-use helper was inlined into it — the caller's body now contains the anchored code
+		if caller := byName[fa.Callers[0]]; caller != nil {
+			found = append(found, caller.Obj)
+			inlined = true
+		}
+	}
 	if len(found) != 1 {
 		return nil
 	}
@@ -315,8 +472,16 @@ func (p *Program) relocate(spec string, fa FrozenAnchor) *types.Func {
 		p.Relocated = map[string]string{}
 	}
 	p.Relocated[spec] = FuncName(found[0])
+	if nm := spec[strings.LastIndex(spec, ":")+1:]; !inlined { // (inlined into its caller: the caller keeps its own name)
+		funcAlias[found[0]] = nm[strings.LastIndex(nm, ".")+1:]
+	}
 	return found[0]
 }
+
+// funcAlias gives a relocated (renamed) function the simple name it had on the pinned tree:
+// FuncName — and with it obligation keys, allowed-caller tables and known-finding keys — keeps
+// the pinned tree's vocabulary.
+var funcAlias = map[*types.Func]string{}
 
 // Src returns the source of a declared function, or nil.
 func (p *Program) Src(fn *types.Func) *FuncSrc {
@@ -371,11 +536,21 @@ func FuncName(fn *types.Func) string {
 			tn = a.Obj().Name()
 		}
 		if ptr != "" {
-			return fmt.Sprintf("%s:(*%s).%s", pk, tn, fn.Name())
+			return fmt.Sprintf("%s:(*%s).%s", pk, tn, aliasName(fn))
 		}
-		return fmt.Sprintf("%s:%s.%s", pk, tn, fn.Name())
+		return fmt.Sprintf("%s:%s.%s", pk, tn, aliasName(fn))
 	}
-	return pk + ":" + fn.Name()
+	return pk + ":" + aliasName(fn)
+}
+
+func aliasName(fn *types.Func) string {
+	if a, ok := funcAlias[fn]; ok {
+		return a
+	}
+	if a, ok := funcAlias[fn.Origin()]; ok {
+		return a
+	}
+	return fn.Name()
 }
 
 // Name of a FuncSrc.
